@@ -29,6 +29,7 @@ func init() {
 			{Name: "unguarded env split again", File: "config/flagset.go", Old: "\t\tif len(p) != 2 {\n\t\t\t// ignore entries without a value\n\t\t\tcontinue\n\t\t}\n", New: "", Expect: "C15.P1"},
 			{Name: "glob cache size not validated", File: "config/load.go", Old: "\tif cfg.GlobCacheSize < 0 {\n\t\treturn nil, fmt.Errorf(\"glob.cache.size must not be negative\")\n\t}\n", New: "", Expect: "C15.V1"},
 			{Name: "consul cert source continues after a failed setup", File: "cert/consul_source.go", Old: "\t\tlog.Printf(\"[ERROR] cert: Failed to create consul client. %s\", err)\n\t\treturn nil", New: "\t\tlog.Printf(\"[ERROR] cert: Failed to create consul client. %s\", err)", Expect: "C15.V2"},
+			{Name: "strategy validated case-insensitively", File: "config/load.go", Old: "if cfg.Proxy.Strategy != \"rr\" && cfg.Proxy.Strategy != \"rnd\" {", New: "if s := strings.ToLower(cfg.Proxy.Strategy); s != \"rr\" && s != \"rnd\" {", Expect: "C15.V3"},
 			{Name: "benign: registration reordered", File: "config/load.go", Old: "\tf.BoolVar(&cfg.Insecure, \"insecure\", defaultConfig.Insecure, \"allow fabio to run as root when set to true\")\n\tf.IntVar(&cfg.Proxy.MaxConn, \"proxy.maxconn\", defaultConfig.Proxy.MaxConn, \"maximum number of cached connections\")", New: "\tf.IntVar(&cfg.Proxy.MaxConn, \"proxy.maxconn\", defaultConfig.Proxy.MaxConn, \"maximum number of cached connections\")\n\tf.BoolVar(&cfg.Insecure, \"insecure\", defaultConfig.Insecure, \"allow fabio to run as root when set to true\")", Expect: ""},
 		},
 	})
@@ -62,6 +63,7 @@ func runC15(c *Ctx) {
 	runC15P(c)
 	runC15V1(c)
 	runC15V2(c)
+	runC15V3(c)
 }
 
 func runC15R1(c *Ctx) {
